@@ -147,11 +147,12 @@ def run(ctx):
                             "direct_oracle": r["direct"]})
     cov = C.proof_coverage(
         pr, "make -f Makefile.coq theories/Props/C05.vo (coqc 8.16.1) in /verif/coq",
-        ["crypto/aes and crypto/sha1 are Section variables of the theorems (E, D, H); hypotheses used: length (E k b) = length (D k b) = 16, "
-         "D k (E k b) = b on 16-byte blocks (AES is a permutation per key), length (H m) = 20, and for the wrapper round trip the explicit "
-         "no-collision hypothesis H (payload ++ q) <> H payload for the non-empty prefixes q of the <= 15 padding bytes",
-         "execution instances Prim/Aes256.v and Prim/Sha1.v (FIPS-197 / FIPS 180 known answers proved by vm_compute) are compared with crypto/aes and "
-         "crypto/sha1 through every correspondence case",
+        ["crypto/aes and crypto/sha1 are Section variables of the theorems (E, D, H) with hypotheses: output lengths 16 / 20, outputs are bytes, "
+         "D k (E k b) = b on 16-byte blocks under 32-byte keys, and for the wrapper round trip the explicit no-collision hypothesis "
+         "H (payload ++ q) <> H payload for the non-empty prefixes q of the <= 15 padding bytes. All but the no-collision hypothesis are proved for "
+         "the Gallina instances (Prim/Aes256.v, Aes256Facts.v, Aes256Inv.v: aes_dec_enc; Prim/Sha1.v), see C05_dec_enc_aes, C05_temp_roundtrip_inst",
+         "that the Gallina AES / SHA-1 are crypto/aes / crypto/sha1: FIPS-197 / FIPS 180 known answers proved by vm_compute + every correspondence case "
+         "(the Go side calls crypto/aes and crypto/sha1, the model side the Gallina functions)",
          "in-package export internal/aes_ige/verif_export.go (build tag verif) reaches the unexported functions",
          "nonces are passed as big.Int built with SetBytes from raw bytes; nil and negative big.Int are outside the model; in/out buffers never overlap; len = cap for all slices"],
         {"evaluations": evals, "distinct_nontrivial": len(nontrivial),
@@ -166,7 +167,7 @@ def run(ctx):
          "projection": "result class ok/err/panic; bytes of the output buffer and of the caller's input buffer after the call (also after err/panic); "
                        "key and iv bytes; never error texts or panic values"})
     return C.finish(ctx, "proof", cov, [
-        "AES (crypto/aes) is a permutation per key with 16-byte blocks: hypothesis of C05_dec_enc and C05_temp_roundtrip",
+        "crypto/aes and crypto/sha1 compute the same functions as Prim/Aes256.v and Prim/Sha1.v (for which invertibility, lengths and byte ranges are proved)",
         "SHA-1 output is 20 bytes; SHA-1 does not collide between the payload and payload ++ (non-empty prefix of the <= 15 padding bytes): explicit hypothesis of C05_temp_roundtrip",
         "big.Int.Bytes()/copy/slice semantics as written in Crypto/TempKeys.v"])
 
